@@ -193,7 +193,8 @@ pub fn mirror(ctx: &mut Ctx, case: &Case, factor: f64) {
 
 fn rand_ingredient(r: &mut Rng, dyadic: bool) -> bm::Ingredient {
     let name = r.pick(&["salt", "flour", "water", "égg"]).to_string();
-    let units = r.pick(&[None, Some("g"), Some("kg"), Some("cup")]).map(String::from);
+    // units that differ only in case are different units (T / t, L / l)
+    let units = r.pick(&[None, Some("g"), Some("kg"), Some("cup"), Some("G"), Some("Kg"), Some("T"), Some("t"), Some("L"), Some("l")]).map(String::from);
     // dyadic: k/1024 (sums are exact in f64, ten decimal digits — a total that is rounded, truncated or accumulated
     // in f32 no longer compares equal); otherwise decimals with up to 9 digits spread over 12 orders of magnitude
     let num = |r: &mut Rng| {
@@ -405,6 +406,15 @@ pub fn run(ctx: &mut Ctx) {
         let f = *ctx.rng.pick(&[1.0, 2.0, 0.5, 3.3]);
         let case = Case::new("mirror", sp.text, 0, "empty").with(json!({"factor": f}));
         mirror(ctx, &case, f);
+        // the same text again at once with another factor, then with the first one: a call must not depend on the call before
+        if i % 3 == 0 {
+            let f2 = if f == 2.0 { 0.5 } else { 2.0 };
+            let c2 = Case { params: json!({"factor": f2, "after_factor": f}), ..case.clone() };
+            mirror(ctx, &c2, f2);
+            let c3 = Case { params: json!({"factor": f, "after_factor": f2}), ..case.clone() };
+            mirror(ctx, &c3, f);
+            ctx.count("same_text_other_factor");
+        }
     }
     // "every input the canonical parser accepts": short strings over the token alphabet (exhaustive), random and
     // mutated ones — escapes at line ends, CR/CRLF soup, comments, odd blocks; only canonically valid ones are mirrored
